@@ -146,6 +146,34 @@ class Interp:
             c = d
         return [(st, Outcome("fall"))] if c else [(st, Outcome("raise", None, s))]
 
+    def s_Try(self, s: ast.Try, st: State) -> t.List[t.Tuple[State, Outcome]]:
+        """try/except/else/finally: the normal path runs body + else; one more path per handler starts from the state
+        before the body (what the body assigned is unknown there, its calls may not have completed) under the condition
+        'the body raised <type>'; finally runs after each."""
+        out: t.List[t.Tuple[State, Outcome]] = []
+        for st2, o in self.block(list(s.body), _fork(st)):
+            if o.kind == "fall" and s.orelse:
+                out += self.block(list(s.orelse), st2)
+            else:
+                out.append((st2, o))
+        assigned = {n.id for b in s.body for n in ast.walk(b) if isinstance(n, ast.Name) and isinstance(n.ctx, ast.Store)}
+        for h in s.handlers:
+            hs = _fork(st)
+            for name in assigned:
+                hs.env[name] = Unknown(f"{name} (try body at line {s.lineno} interrupted)")
+            what = unparse(h.type) if h.type is not None else "BaseException"
+            hs.conds.append((BoolVal(f"try@{s.lineno} raised {what}", {"raised": what, "try": s}), True))
+            if h.name:
+                hs.env[h.name] = Unknown(h.name)
+            out += self.block(list(h.body), hs)
+        if s.finalbody:
+            fin: t.List[t.Tuple[State, Outcome]] = []
+            for st2, o in out:
+                for st3, o3 in self.block(list(s.finalbody), st2):
+                    fin.append((st3, o if o3.kind == "fall" else o3))
+            out = fin
+        return out
+
     def s_Pass(self, s: ast.Pass, st: State) -> t.List[t.Tuple[State, Outcome]]:
         return [(st, Outcome("fall"))]
 
